@@ -15,7 +15,9 @@ import warnings
 
 import numpy as np
 
-from harness.core import Prop, cz, cfloat, clist, coption, cbool
+from fractions import Fraction
+
+from harness.core import Prop, cz, cq, cfloat, clist, coption, cbool
 
 import porepy as pp
 
@@ -43,7 +45,7 @@ _MSG = [
     ("Recomputation will not have any effect", "E_dt_at_min"),
     ("Solution did not converge after", "E_recomp_exhausted"),
     ("Nonlinear iterations did not converge", "E_not_converged"),
-    ("Mismatch between the time step and scheduled time", "UNMODELLED_constant_ctor"),
+    ("Mismatch between the time step and scheduled time", "E_const_mismatch"),
 ]
 
 
@@ -191,40 +193,48 @@ def _f(x):
     return cfloat(float(x))
 
 
-def _args(case):
+def _q(x):
+    return cq(Fraction(float(x)))
+
+
+def _args(case, num=_f, ty="float"):
     a = case["args"]
-    mm = coption(a["dt_min_max"], lambda p: f"({_f(p[0])}, {_f(p[1])})")
-    return ("(Build_args float " + " ".join([
-        _f(a["dt_init"]), cbool(a["constant"]), mm, cz(a["iter_max"]),
-        cz(a["iter_range"][0]), cz(a["iter_range"][1]), _f(a["relax"][0]), _f(a["relax"][1]),
-        _f(a["recomp_factor"]), cz(a["recomp_max"]), _f(a["rtol"]), _f(a["atol"])]) + ")")
+    mm = coption(a["dt_min_max"], lambda p: f"({num(p[0])}, {num(p[1])})")
+    return (f"(Build_args {ty} " + " ".join([
+        num(a["dt_init"]), cbool(a["constant"]), mm, cz(a["iter_max"]),
+        cz(a["iter_range"][0]), cz(a["iter_range"][1]), num(a["relax"][0]), num(a["relax"][1]),
+        num(a["recomp_factor"]), cz(a["recomp_max"]), num(a["rtol"]), num(a["atol"])]) + ")")
 
 
-def _cfg_term(c):
-    return ("(Build_cfg float " + " ".join([
-        _f(c["dt_init"]), cbool(c["constant"]), _f(c["dt_min"]), _f(c["dt_max"]),
-        cz(c["iter_max"]), cz(c["iter_low"]), cz(c["iter_upp"]), _f(c["under"]), _f(c["over"]),
-        _f(c["recomp_factor"]), cz(c["recomp_max"]), _f(c["rtol"]), _f(c["atol"])]) + ")")
+def _cfg_term(c, num=_f, ty="float"):
+    return (f"(Build_cfg {ty} " + " ".join([
+        num(c["dt_init"]), cbool(c["constant"]), num(c["dt_min"]), num(c["dt_max"]),
+        cz(c["iter_max"]), cz(c["iter_low"]), cz(c["iter_upp"]), num(c["under"]), num(c["over"]),
+        num(c["recomp_factor"]), cz(c["recomp_max"]), num(c["rtol"]), num(c["atol"])]) + ")")
 
 
-def _out_term(o):
+def _out_term(o, num=_f):
     k = o[0]
     if k == "none":
         return "ONone"
     if k == "unit":
         return "OUnit"
     if k == "dt":
-        return f"(ODt {_f(o[1])})"
+        return f"(ODt {num(o[1])})"
     if k == "bool":
         return f"(OBool {cbool(o[1])})"
     return f"(OErr {o[1]})"
 
 
-def _snap_term(s):
-    st = ("(Build_state float " + " ".join([
-        _f(s["time"]), _f(s["dt"]), cz(s["tidx"]), cz(s["idx"]), cz(s["recomp"]),
+def _snap_term(s, num=_f, ty="float"):
+    st = (f"(Build_state {ty} " + " ".join([
+        num(s["time"]), num(s["dt"]), cz(s["tidx"]), cz(s["idx"]), cz(s["recomp"]),
         cbool(s["about"])]) + ")")
-    return f"({st}, {_out_term(s['out'])})"
+    return f"({st}, {_out_term(s['out'], num)})"
+
+
+def _ctor_err(code):
+    return "(inr E_const_mismatch)" if code == "E_const_mismatch" else f"(inr (Base {code}))"
 
 
 def _event_term(e):
@@ -264,42 +274,55 @@ def _isclose(a, b, rtol, atol):
 class C09(Prop):
     id = "C09"
     props_file = "Props/C09.v"
-    preamble = ("From Coq Require Import List ZArith Bool PrimFloat.\nImport ListNotations.\n"
-                "From PP Require Import Model.C09.\n")
+    preamble = ("From Coq Require Import List ZArith Bool QArith PrimFloat.\nImport ListNotations.\n"
+                "From PP Require Import Model.C09 Model.C09_ext.\n")
     n_cases = (500, 20000)
     design_ref = "DESIGN.md §5 C09, §6.1 (repair), Appendix A C09_main"
     level_text = (
         "Coq theorems (exact real arithmetic) over an executable, statement-by-statement "
-        "transcription of TimeManager.__init__ validation, compute_time_step with all its "
+        "transcription of the COMPLETE TimeManager.__init__ validation (incl. the np.arange/"
+        "searchsorted/isclose compatibility test for constant_dt), compute_time_step with all its "
         "adaptations/corrections, increase_time, final_time_reached and the time loop of "
-        "run_time_dependent_model with after_nonlinear_convergence/failure: for every "
-        "configuration satisfying the stated validity conditions, every strictly increasing, "
+        "run_time_dependent_model with after_nonlinear_convergence/failure. C09_main: for every "
+        "accepted adaptive configuration with 0 < dt_min and non-negative tolerances, every "
         "well-separated schedule of any length, an initial step inside the first interval and "
         "EVERY sequence of converged (any iteration count) and failed steps: accepted times "
-        "strictly increase, never exceed the final time, every scheduled time is (exactly) an "
-        "accepted time or within isclose of one once the loop finishes, dt stays in "
-        "[dt_min, dt_max] unless shortened onto the schedule (then 0 < dt <= dt_max), a failed "
-        "step rewinds the clock exactly or raises (recomputation exhausted / dt == dt_min), and "
-        "nothing else raises. The model is tied to the code on every run: the real time loop "
-        "and the real class are executed on random schedules / parameters / event scripts and "
-        "Coq (binary64 instance of the same polymorphic model) must reproduce every state, "
-        "return value and exception bit for bit.")
+        "strictly increase, never exceed the final time, every scheduled time is within isclose "
+        "of an accepted time once the loop finishes, dt stays in [dt_min, dt_max] unless "
+        "shortened onto the schedule (then 0 < dt <= dt_max), a failed step rewinds the clock "
+        "exactly or raises (recomputation exhausted / dt == dt_min), nothing else raises. "
+        "C09_constant: the constant-step analogue (accepted times t0+k*dt, every scheduled time "
+        "matched under the constructor's compatibility test, failed steps raise). "
+        "C09_instance_independence / C09_rational_runs_are_real_runs: the polymorphic model "
+        "commutes with every homomorphism of instances, in particular Q2R from the executable "
+        "exact rational instance to the real instance. Three _refuted theorems give the boundary: "
+        "dropping any one of the guards (first interval, separation, 0 < dt_min) on inputs the "
+        "constructor accepts falsifies C09_main; non-positive tolerances degrade isclose to "
+        "equality. Tie on every run: the real time loop and the real class are executed on random "
+        "schedules / parameters / event scripts; Coq must reproduce every state, return value and "
+        "exception bit for bit with the binary64 instance, and on inputs where no binary64 "
+        "operation rounds (small dyadic data, power-of-two factors and tolerances) additionally "
+        "with the exact rational instance on the implementation's numbers read as rationals.")
     level_note = (
         "P-core. NOT proved: floating-point rounding (theorems are over the reals; the binary64 "
         "instance of the model is only executed; in floats (t+dt)-dt may differ from t by an "
-        "ulp, which the oracle tolerates via isclose). Trusted: that the polymorphic model "
-        "means the same under both instances of the operations record (no transfer lemma "
-        "R<->binary64 is possible; instance-independence of the definition is by "
-        "parametricity, not proved); Coq kernel, vm_compute and PrimFloat primitives (= IEEE "
-        "binary64 as in CPython/numpy, round-to-nearest-even); the harness (generator, "
-        "message->error-enum table, literal emission via float.hex()); the stub model and "
-        "scripted solver that stand in for a PDE model inside the real time loop. The "
-        "constant_dt=True constructor check (np.arange/searchsorted compatibility of dt_init "
-        "and schedule) is not modelled: theorems cover constant_dt=False only; constant-dt "
-        "runs are tied only when the real constructor accepts. Theorem guards not enforced "
-        "by the constructor and therefore explicit hypotheses: 0 < dt_min, tolerances >= 0, "
-        "consecutive scheduled times further apart than the isclose tolerance, dt_init <= "
-        "first interval. numpy warnings and print_info output are not modelled.")
+        "ulp, which the oracle tolerates via isclose). The link binary64 <-> exact instance is by "
+        "execution (per run, on the dyadic cases only), not a theorem about PrimFloat; the link "
+        "rational <-> real instance IS a theorem (homomorphism transfer). Trusted: Coq kernel, "
+        "vm_compute and PrimFloat primitives (= IEEE binary64 as in CPython/numpy, "
+        "round-to-nearest-even), Prim2SF for the ceiling of a double; the harness (generator, "
+        "message->error-enum table, literal emission via float.hex() / fractions.Fraction); the "
+        "stub model and scripted solver that stand in for a PDE model inside the real time loop; "
+        "np.arange's documented fill rule (start + i*((start+step)-start), length "
+        "ceil((stop-start)/step)) and searchsorted(left) = number of smaller entries on a sorted "
+        "array, both transcribed and tied. Theorem guards not enforced by the constructor and "
+        "therefore explicit hypotheses: 0 < dt_min, tolerances >= 0, consecutive scheduled times "
+        "further apart than the isclose tolerance, dt_init <= first interval (each shown "
+        "necessary by a _refuted theorem, except the tolerance sign: non-positive tolerances are "
+        "shown to mean exact comparison, mixed signs are not characterised); for constant dt: "
+        "dt_init > 2*(atol + rtol*|final + dt_init|). In C09_constant scheduled times are matched "
+        "in the constructor's orientation isclose(scheduled, simulated). numpy warnings and "
+        "print_info output are not modelled.")
     technique = ("Coq proof (inductive invariant over all event sequences of the transcribed time "
                  "loop, reals) + vm_compute bit-exact execution correspondence (PrimFloat) + "
                  "direct oracle on the real time loop")
@@ -311,13 +334,15 @@ class C09(Prop):
             "of up to 80 (quick) / 400 (thorough) converged(iterations)/failed events run through "
             "the real run_time_dependent_model, and raw public-call sequences; non-trivial = at "
             "least one event executed and (an interior scheduled time, a failure, or an error)")
-    trusted = ["instance-independence of the polymorphic model (reals for theorems, binary64 "
-               "for execution)", "PrimFloat = IEEE binary64 arithmetic of CPython/numpy",
+    trusted = ["binary64 instance vs exact instances: linked by execution on non-rounding (dyadic) "
+               "cases, not by a theorem; rational vs real instance: proved (Q2R homomorphism)",
+               "PrimFloat = IEEE binary64 arithmetic of CPython/numpy",
                "stub model + scripted solver inside the real pp.run_time_dependent_model"]
     assumptions = ["exact real arithmetic in the theorems (rounding not covered)",
                    "0 < dt_min, rtol >= 0, atol >= 0 (not checked by the constructor)",
                    "consecutive scheduled times differ by more than atol + rtol*|later time|",
-                   "dt_init <= schedule[1] - schedule[0]", "constant_dt = False in the theorems"]
+                   "dt_init <= schedule[1] - schedule[0] (C09_main)",
+                   "constant dt (C09_constant): dt_init > 2*(atol + rtol*|final + dt_init|)"]
 
     # ------------------------------------------------------------------ generation
     def _schedule(self, rng, dyadic):
@@ -334,7 +359,8 @@ class C09(Prop):
         if dyadic:
             dmax = rng.choice([0.25, 0.5, 1.0, 2.0, 4.0])
             dmin = dmax / rng.choice([4, 8, 16, 64])
-            relax = rng.choice([(0.5, 2.0), (0.5, 2.0), (0.25, 2.0), (0.5, 1.5), (0.75, 1.25)])
+            relax = rng.choice([(0.5, 2.0), (0.5, 2.0), (0.25, 2.0), (0.5, 4.0), (0.5, 1.5),
+                                (0.75, 1.25)])
             rf = rng.choice([0.5, 0.5, 0.25, 0.75])
             cands = [d for d in (dmax, dmax / 2, dmax / 4, dmin, first) if dmin <= d <= dmax
                      and d <= first]
@@ -349,6 +375,9 @@ class C09(Prop):
         low = rng.choice([1, 2, 4, 4])
         upp = low + rng.choice([0, 1, 3, 3])
         tol = rng.choice([(1e-10, 1e-16)] * 6 + [(1e-8, 1e-12), (1e-12, 0.0), (1e-5, 1e-8)])
+        if dyadic and rng.random() < 0.6:
+            # tolerances that are powers of two: with power-of-two factors no operation rounds
+            tol = rng.choice([(2.0 ** -33, 2.0 ** -53), (2.0 ** -33, 0.0), (2.0 ** -40, 2.0 ** -60)])
         return {
             "dt_init": dinit, "constant": False, "dt_min_max": [dmin, dmax],
             "iter_max": upp + rng.choice([0, 3, 8]), "iter_range": [low, upp],
@@ -415,8 +444,7 @@ class C09(Prop):
         elif k == 22:
             a["dt_min_max"] = [rng.choice([0.0, -0.25]), dmax]
         elif k in (23, 24):
-            a["constant"] = True
-            a["dt_init"] = rng.choice([s[1] - s[0], (s[1] - s[0]) / 2, 0.25, 0.5, 0.1, 1.0])
+            self._make_constant(rng, case)
         elif k == 25:
             # dt_init larger than the first interval (outside the property's precondition)
             a["dt_init"] = min(dmax, (s[1] - s[0]) * 2)
@@ -427,9 +455,25 @@ class C09(Prop):
         # 27..29: unchanged
         return case
 
+    def _make_constant(self, rng, case):
+        """constant_dt=True with a step that is (often) compatible with the schedule; the
+        number of simulated times of the constructor's np.arange is kept below ~4000."""
+        a = case["args"]
+        s = [float(x) for x in case["sched"]]
+        span = s[-1] - s[0]
+        gaps = [b - x for x, b in zip(s, s[1:])]
+        cands = [min(gaps), min(gaps) / 2, min(gaps) / 4, 0.125, 0.25, 0.5, 0.1, 0.05, 1.0,
+                 0.3, span, span / 3, gaps[0]]
+        cands = [d for d in cands if d > 0 and span / d <= 4000]
+        a["constant"] = True
+        a["dt_init"] = rng.choice(cands) if cands else span
+        return case
+
     def _events(self, rng, a, n):
         low, upp = a["iter_range"]
         pfail = rng.choice([0.0, 0.05, 0.15, 0.3, 0.5])
+        if a["constant"]:
+            pfail = rng.choice([0.0, 0.0, 0.0, 0.01])      # any failure ends a constant-dt run
         mode = rng.choice(["mixed", "mixed", "keep", "grow", "shrink"])
         evs = []
         for _ in range(n):
@@ -454,8 +498,11 @@ class C09(Prop):
             sched = self._schedule(rng, dyadic)
             case = {"kind": "drive", "sched": sched,
                     "args": self._valid_args(rng, sched, dyadic)}
-            if rng.random() < 0.3:
+            r0 = rng.random()
+            if r0 < 0.3:
                 case = self._perturb(rng, case)
+            elif r0 < 0.4:
+                case = self._make_constant(rng, case)
             nev = rng.choice([5, 20, maxev // 2, maxev, maxev])
             if rng.random() < 0.8:
                 case["events"] = self._events(rng, case["args"], nev)
@@ -485,10 +532,7 @@ class C09(Prop):
             try:
                 tm = _make_tm(case)
             except ValueError as e:
-                code = _err_code(e)
-                if code.startswith("UNMODELLED"):
-                    return {"skip": code}
-                return {"ctor": code}
+                return {"ctor": _err_code(e)}
             res = {"ctor": None, "cfg": _cfg(tm), "t0": float(tm.time)}
             if case["kind"] == "calls":
                 snaps = []
@@ -527,7 +571,7 @@ class C09(Prop):
     def in_scope(self, case, res):
         """The property's preconditions (valid parameters and schedule, initial step inside
         the first interval), with a safety margin between the schedule and the tolerance."""
-        if case["kind"] != "drive" or res.get("skip") or res.get("ctor"):
+        if case["kind"] != "drive" or res.get("ctor"):
             return False
         c = res["cfg"]
         s = [float(x) for x in case["sched"]]
@@ -542,7 +586,47 @@ class C09(Prop):
                 return False
         return True
 
+    def oracle_constant(self, case, res):
+        """constant_dt=True accepted by the constructor: accepted times increase by dt_init,
+        do not pass the final time (beyond isclose), every scheduled time is matched when the
+        loop finishes, and a failed step raises."""
+        if case["kind"] != "drive" or res.get("ctor") or not res["cfg"]["constant"]:
+            return None
+        c = res["cfg"]
+        s = [float(x) for x in case["sched"]]
+        rtol, atol, d = c["rtol"], c["atol"], c["dt_init"]
+        if not (rtol >= 1e-12 and atol >= 0 and d > 1e4 * (atol + rtol * abs(s[-1] + d))):
+            return None
+        # either orientation of np.isclose, as the constructor (scheduled vs simulated) and
+        # final_time_reached (time vs final) use different reference values
+        close = lambda x, y: _isclose(x, y, rtol, atol) or _isclose(y, x, rtol, atol)
+        accepted = [res["t0"]]
+        for ev, sn in zip(case["events"], res["snaps"]):
+            err = sn["out"][0] == "err"
+            if ev[0] == "f":
+                if not (err and sn["out"][1] == "E_not_converged"):
+                    return f"rewind:failed constant step answered {sn['out']}"
+                continue
+            if err or sn["out"] != ["unit"]:
+                return f"raise:converged constant step answered {sn['out']}"
+            if not sn["time"] > accepted[-1]:
+                return f"monotone:accepted time {sn['time']!r} after {accepted[-1]!r}"
+            if sn["dt"] != d:
+                return f"dtbounds:constant manager changed dt to {sn['dt']!r} (dt_init {d!r})"
+            accepted.append(sn["time"])
+            if sn["time"] > s[-1] and not close(sn["time"], s[-1]):
+                return f"final:accepted time {sn['time']!r} exceeds the final time {s[-1]!r}"
+        if res["stop"][0] == "finished":
+            for t in s:
+                if not any(close(x, t) for x in accepted):
+                    return f"missed:scheduled time {t!r} is not an accepted time (constant dt)"
+        elif res["stop"][0] == "raised" and res["stop"][1] != "E_not_converged":
+            return f"raise:time loop raised {res['stop'][1]}"
+        return None
+
     def oracle(self, case, res):
+        if case["kind"] == "drive" and not res.get("ctor") and res["cfg"]["constant"]:
+            return self.oracle_constant(case, res)
         if not self.in_scope(case, res):
             return None
         c = res["cfg"]
@@ -592,33 +676,93 @@ class C09(Prop):
         return None
 
     # ------------------------------------------------------------------ tie
+    @staticmethod
+    def exact_designated(case):
+        """Inputs on which NO binary64 operation of the time stepping rounds: small dyadic
+        schedule / steps / bounds, relaxation and recomputation factors that are powers of
+        two, tolerances that are powers of two (or 0), dt_min bounded away from 0.  On these
+        the implementation's numbers, read as exact rationals, must be reproduced by the
+        RATIONAL instance of the model as well."""
+        a = case["args"]
+
+        def small(x):
+            fr = Fraction(float(x))
+            return abs(fr) <= 1024 and fr.denominator <= 256
+
+        def pow2(x, lo=-4, hi=4):
+            fr = Fraction(float(x))
+            if fr <= 0:
+                return False
+            n, d = fr.numerator, fr.denominator
+            return (n == 1 or d == 1) and (n & (n - 1)) == 0 and (d & (d - 1)) == 0 \
+                and 2.0 ** lo <= fr <= 2.0 ** hi
+
+        if a["dt_min_max"] is None or len(case["sched"]) < 2:
+            return False
+        nums = list(case["sched"]) + [a["dt_init"]] + list(a["dt_min_max"])
+        if not all(small(x) for x in nums):
+            return False
+        if not (Fraction(float(a["dt_min_max"][0])) >= Fraction(1, 256)):
+            return False
+        if not (pow2(a["relax"][0]) and pow2(a["relax"][1]) and pow2(a["recomp_factor"])):
+            return False
+        for t in (a["rtol"], a["atol"]):
+            if not (t == 0 or pow2(t, -60, 0)):
+                return False
+        if a["constant"] and not pow2(a["dt_init"], -8, 8):
+            return False
+        return True
+
     def coq_case(self, case, res):
-        if res.get("skip"):
-            return None
         sched = clist(case["sched"], _f)
         if case["kind"] == "calls":
             if res["ctor"]:
-                exp = f"(inr {res['ctor']})"
+                exp = _ctor_err(res["ctor"])
             else:
                 exp = f"(inl ({_cfg_term(res['cfg'])}, {clist(res['snaps'], _snap_term)}))"
-            return f"agree_calls {_args(case)} {sched} {clist(case['calls'], _call_term)} {exp}"
+            return (f"agree_calls_full {_args(case)} {sched} "
+                    f"{clist(case['calls'], _call_term)} {exp}")
+        evs = clist(case["events"], _event_term)
         if res["ctor"]:
-            exp = f"(inr {res['ctor']})"
+            exp = _ctor_err(res["ctor"])
         else:
             exp = (f"(inl ({_cfg_term(res['cfg'])}, {clist(res['snaps'], _snap_term)}, "
                    f"{_stop_term(res['stop'])}))")
-        return f"agree_drive {_args(case)} {sched} {clist(case['events'], _event_term)} {exp}"
+        term = f"agree_drive_full {_args(case)} {sched} {evs} {exp}"
+        self._counts["drive_cases"] = self._counts.get("drive_cases", 0) + 1
+        if case["args"]["constant"]:
+            k = "constant_dt_" + ("rejected" if res["ctor"] else "accepted")
+            self._counts[k] = self._counts.get(k, 0) + 1
+        if self.exact_designated(case):
+            self._counts["also_exact_rational_instance"] = \
+                self._counts.get("also_exact_rational_instance", 0) + 1
+            # second, exact instance: the same run in rational arithmetic
+            if res["ctor"]:
+                expq = _ctor_err(res["ctor"])
+            else:
+                snaps = clist(res["snaps"], lambda x: _snap_term(x, _q, "Q"))
+                expq = (f"(inl ({_cfg_term(res['cfg'], _q, 'Q')}, {snaps}, "
+                        f"{_stop_term(res['stop'])}))")
+            term = (f"({term}) && agree_drive_Q {_args(case, _q, 'Q')} "
+                    f"{clist(case['sched'], _q)} {evs} {expq}")
+        return term
+
+    _counts = {}
+
+    def extra_evidence(self):
+        return {"tie_breakdown": dict(self._counts)}
 
     def coq_diag(self, case, res):
         sched = clist(case["sched"], _f)
         if case["kind"] == "calls":
-            return (f"match construct float FOps {_args(case)} {sched} with inr e => inr e | "
-                    f"inl c => inl (c, run_calls float FOps c {sched} "
+            return (f"match construct_full float FOps FExt {_args(case)} {sched} with "
+                    f"inr e => inr e | inl c => inl (c, run_calls float FOps c {sched} "
                     f"(init_state float FOps c {sched}) {clist(case['calls'], _call_term)}) end")
-        return f"simulate float FOps {_args(case)} {sched} {clist(case['events'], _event_term)}"
+        return (f"simulate_full float FOps FExt {_args(case)} {sched} "
+                f"{clist(case['events'], _event_term)}")
 
     def nontrivial(self, case, res):
-        if res.get("skip") or res.get("ctor") or not res.get("snaps"):
+        if res.get("ctor") or not res.get("snaps"):
             return False
         if case["kind"] == "calls":
             return True
